@@ -10,6 +10,9 @@ Streams
              dynamic_params._avoid_recursions, the loop of dynamic_params._search_function_arguments)
              on one state object vs Model.Determinism.session; dynamic_params_depth must be 0 after
              every query
+  eqclass    deterministic regression of the former finding C16-eq-class-representative: when the
+             inferred values are a class and an instance of it, infer() returns both, class first,
+             under every forced iteration order and in every subprocess (hash seeds, allocation noise)
   order      direct oracle, in-process: the value set / name set that Script.infer / goto turn into
              Name objects is handed over in every (sampled) iteration order; the ordered result
              lists must be equal (goto: as sets)
@@ -51,9 +54,10 @@ MANIFEST = dict(
          'expressions of Script.infer/goto/get_references, the reset at the start of every query method and the '
          'try/finally switches: the key tuple extracted from the source is injective on __eq__ classes of '
          'well-formed names (key_injective; counter-witness without well-formedness), hence for any two '
-         'iteration orders of the value set and ANY surviving representatives the sorted results agree on '
-         'path/line/column/name (sorted_defs_perm_invariant) and are identical when __eq__-equal names are '
-         'indistinguishable (_partial; kernel-checked witness class-vs-instance, reproduced on jedi); goto is '
+         'iteration orders of the value set and ANY surviving representatives the sorted results show the same, '
+         'position by position: path/line/column/name/type (sorted_defs_perm_invariant, FULL since Name.__eq__/'
+         '__hash__ and the sort key include the api type; class_and_instance_both_reported; kernel-checked witness '
+         'type_needed_in_eq_and_in_key that dropping the type from either brings the order dependence back); goto is '
          'the same set (goto_set_invariant); after any sequence of queries with any outcomes the switches '
          'have their defaults and every query starts with fresh recursion bookkeeping '
          '(query_boundary_inv_partial; witness: inferred_element_counts is not reset, reproduced on jedi); '
@@ -266,13 +270,13 @@ class FakeModuleCtx:
 
 
 class FakeInnerName:
-    def __init__(self, pos, path, name, kind):
+    def __init__(self, pos, path, name, kind, api_type='statement'):
         self.start_pos = pos
         self._ctx = FakeModuleCtx(Path(path) if path is not None else None, path is None and pos is None)
         self._n = name
         self.kind = kind
         self.tree_name = None
-        self.api_type = 'statement'
+        self.api_type = api_type
 
     def get_root_context(self):
         return self._ctx
@@ -295,10 +299,15 @@ def stream_sort(ctx, reqs):
             pos = None if rng.random() < 0.2 else (rng.randint(1, 12), rng.randint(0, 11))
             pool.append((pos, rng.choice(paths), rng.choice(names)))
         specs = []
+        # names at the same place that differ only in the api type (a class and its instance, a
+        # function and the property made of it) are what `__eq__` and the sort key must tell apart
+        types = rng.sample(['class', 'instance', 'statement', 'function', 'property', 'module', 'param'],
+                           rng.choice([1, 2, 2, 3]))
         for j in range(k):
             pos, path, name = rng.choice(pool)
-            specs.append({'pos': list(pos) if pos else None, 'path': path, 'name': name, 'kind': j})
-        inner = [FakeInnerName(tuple(s['pos']) if s['pos'] else None, s['path'], s['name'], s['kind'])
+            specs.append({'pos': list(pos) if pos else None, 'path': path, 'name': name, 'kind': j,
+                          'api_type': rng.choice(types)})
+        inner = [FakeInnerName(tuple(s['pos']) if s['pos'] else None, s['path'], s['name'], s['kind'], s['api_type'])
                  for s in specs]
         defs = [classes.Name(state, n) for n in inner]
         try:
@@ -313,9 +322,10 @@ def stream_sort(ctx, reqs):
         rng.shuffle(perm)
         try:
             out2 = helpers.sorted_definitions(set(perm))
-            vis = lambda l: [(str(d.module_path), d.line, d.column, d.name) for d in l]
+            vis = lambda l: [(str(d.module_path), d.line, d.column, d.name, d.type) for d in l]
             if vis(out) != vis(out2):
-                ctx.fail('sort', 'sorted_definitions(set(defs)) depends on the order of defs', {'names': specs},
+                ctx.fail('sort', 'what sorted_definitions(set(defs)) shows (path, line, column, name, type) depends '
+                         'on the order of defs', {'names': specs},
                          expected=vis(out), observed=vis(out2),
                          how='helpers.sorted_definitions(set(defs)) with classes.Name over synthetic inner names')
         except Exception:
@@ -645,6 +655,52 @@ def stream_order(ctx):
                           sample={'label': label, 'query': q, 'line': line, 'column': col, 'answer': base})
 
 
+# ----------------------------------------------------------------- stream: eqclass
+
+def _both(name, line, col):
+    return ['ok', [[None, line, col, name, 'class'], [None, line, col, name, 'instance']]]
+
+
+# (label, source, query, line, column, the one answer every process / iteration order must give):
+# the inferred values are a class and an instance of that class. Both are named by the class name
+# (same path, line, column, name), they differ in the api type only. The former finding
+# C16-eq-class-representative (= C02-class-and-instance-merged-by-api): Name.__eq__/__hash__ ignored
+# the type, set(defs) kept whichever the identity-hashed value set yielded first.
+EQ_PROBES = [
+    ('class-vs-instance', "class A: pass\ndef g(q):\n    if q: return A\n    return A()\nx = g(zz)\nx",
+     'infer', 6, 1, _both('A', 1, 6)),
+    ('instance-vs-class', "class D:\n    pass\ndef k(q):\n    if q: return D()\n    return D\nr = k(zz)\nr",
+     'infer', 7, 1, _both('D', 1, 6)),
+    ('list-of-both', "class B: pass\ny = [B, B()]\nfor z in y:\n    z", 'infer', 4, 5, _both('B', 1, 6)),
+    ('param-of-both', "class C: pass\ndef h(p):\n    return p\nh(C)\nh(C())\nh(C())", 'infer', 3, 12,
+     _both('C', 1, 6)),
+]
+
+
+def stream_eqclass(ctx):
+    """deterministic regression: every forced iteration order of the value set gives exactly the
+    expected answer - both definitions, class first (the subprocess half is in stream_subproc)"""
+    import jedi
+    how = ('harness/props/c16.py:ForceOrder(pick) around jedi.Script(source).infer(line, column): the values '
+           'that Script.infer turns into Name objects are iterated in the order pick(values)')
+    for label, src, q, line, col, want in EQ_PROBES:
+        orders = [('sorted', lambda r: sorted(r, key=stable_key)), ('reversed', lambda r: sorted(r, key=stable_key)[::-1]),
+                  ('as-is', lambda r: r)]
+        sub = ctx.subrng('eqclass-' + label)
+        for k in range(ctx.size(2, 12)):
+            orders.append(('shuffled-%d' % k, lambda r, sub=sub: sub.sample(r, len(r))))
+        for oname, pick in orders:
+            with ForceOrder(pick) as fo:
+                ans = run_query(jedi.Script(src), q, line, col)
+            ctx.count('eqclass', (label, oname), nontrivial=max(fo.sizes or [0]) > 1, bucket='in-process/%s' % label,
+                      sample={'label': label, 'order': oname, 'answer': ans})
+            if ans != want:
+                ctx.fail('eqclass', 'a class and its instance are not both reported in the fixed order',
+                         {'label': label, 'source': src, 'query': q, 'line': line, 'column': col},
+                         expected=want, observed={'difference': classify(want, ans), 'order': oname, 'answer': ans},
+                         how=how)
+
+
 # ----------------------------------------------------------------- stream: subproc
 
 CHILD = r'''
@@ -668,7 +724,7 @@ json.dump(out, sys.stdout)
 def stream_subproc(ctx, pcache):
     rng = ctx.subrng('subproc')
     progs = programs(ctx, rng, ctx.size(10, 150))
-    cases = []
+    cases = [(src, q, line, col) for label, src, q, line, col, want in EQ_PROBES]
     dyn = [(label, src, queries) for label, src, queries, meta in DP.fixed_programs()]
     for i in range(ctx.size(3, 40)):
         src, queries, meta = DP.gen_program(rng)
@@ -719,6 +775,16 @@ def stream_subproc(ctx, pcache):
             raise common.InfraError('subprocess PYTHONHASHSEED=%s answered %d of %d cases' % (hs, len(results[-1]), len(cases)))
     how = ('PYTHONHASHSEED=<seed> python -c "<allocate noise objects>; jedi.Script(source).<query>(line, column)" '
            'in fresh processes; see harness/props/c16.py:CHILD')
+    # the regression probes come first: every process must give exactly the expected answer
+    for i, (label, src, q, line, col, want) in enumerate(EQ_PROBES):
+        for (hs, noise, _), r in zip(procs, results):
+            ctx.count('eqclass', (label, hs, noise), nontrivial=True, bucket='subprocess/%s' % label)
+            if r[i] != want:
+                ctx.fail('eqclass', 'a class and its instance are not both reported in the fixed order',
+                         {'label': label, 'source': src, 'query': q, 'line': line, 'column': col},
+                         expected=want, observed={'difference': classify(want, r[i]), 'PYTHONHASHSEED': hs,
+                                                  'noise': noise, 'answer': r[i]}, how=how)
+                break
     for i, (src, q, line, col) in enumerate(cases):
         base = results[0][i]
         ctx.count('subproc', (src, q, line, col), nontrivial=base[0] == 'ok' and len(base[1]) > 0,
@@ -1049,6 +1115,7 @@ def run(ctx):
     cases += timed('sort', stream_sort, ctx, reqs)
     cases += timed('machine', stream_machine, ctx, reqs, cap, factor)
     with PrivateCache() as pcache, SearchHook():
+        timed('eqclass', stream_eqclass, ctx)
         timed('order', stream_order, ctx)
         timed('session', stream_session, ctx, cap)
         timed('dynsession', stream_dynsession, ctx, cap)
